@@ -63,7 +63,7 @@ def run(facts, tr, rep):
             if c.name in DRAWS and ("rand" in (c.def_ or "")):
                 draws.append((bd, c))
     rep.floor("C19.draw-sites", len(draws), 3)
-    locks = [c for c in g.calls() if c.name == "lock" and "utex" in (c.path or "")]
+    locks = [c for c in g.calls() if c.name in ("lock", "try_lock") and "utex" in (c.path or "")]
     for n, (bd, c) in enumerate(draws):
         rep.saw(bd)
         if bd.def_ in helper_of:
@@ -147,7 +147,13 @@ def run(facts, tr, rep):
     own = list({c.bb: c for c in own}.values())
     if own and locks:
         lk = locks[0]
-        region_ok = all(g.node_dominates(lk.bb, c.bb) for c in own) and len(locks) == 1
+        # one acquisition per request: every draw lies behind an acquisition, and no acquisition lies between two draws
+        # (`match m.try_lock() { Ok(g) => g, Err(_) => m.lock().unwrap() }` is one acquisition reached two ways)
+        lbs = [x.bb for x in locks]
+        nolock = g.reach([0], kinds=(N,), avoid_nodes=lbs)
+        region_ok = all(c.bb not in nolock for c in own) and \
+            not any(x.target is not None and c2.bb in g.reach([x.target], kinds=(N,)) and x.bb in g.reach([c1.bb], kinds=(N,))
+                    for x in locks for c1 in own for c2 in own)
         ys = []
         for c in own:
             back = [x for x in range(g.n) if g.term(x)["k"] == "yield" and x in g.reach([lk.bb], kinds=(N,)) and c.bb in g.reach([x], kinds=(N,))]
